@@ -145,7 +145,7 @@ PROPS["C13"] = dict(
                "resource name = text before it; and that redirect rules are filed in the redirect list and block only with the redirect (not redirect-rule) option; "
                "for the resource store: add_resource either fails and changes nothing or adds exactly the resource and its aliases (refused exactly on invalid content or a taken identifier), every alias belongs to a loaded resource that lists it (invariant), "
                "from_resources is the left fold of add_resource over an empty store, Engine::use_resources replaces the engine's store by it and Engine::add_resource is add_resource on it; a lookup answers by name, else through the alias",
-    level_note="exception cancellation compares whole option strings (as the code does; see DESIGN)",
+    level_note="an exception cancels the redirections to the resource it names whatever their priority (the statement's reading; the code compared whole option values until fix d03f383)",
     design_ref="DESIGN.md section 4, C13",
 )
 
